@@ -21,6 +21,9 @@ func TestGolden(t *testing.T) {
 		if err != nil {
 			t.Fatalf("%s: %v", c, err)
 		}
+		if os.Getenv("LOCKSKEL_UPDATE") != "" {
+			os.WriteFile(filepath.Join(dir, "expected.v"), got, 0o644)
+		}
 		want, err := os.ReadFile(filepath.Join(dir, "expected.v"))
 		if err != nil {
 			t.Fatalf("%s: %v", c, err)
@@ -132,7 +135,13 @@ func TestFieldsKeyEntries(t *testing.T) {
 	fast := `Sec [` + cpmR + `] [` + rd("partitions") + `; ` + rd("currentPartitionId") + `; ` + rd("partitionCapacity") + `]`
 	slow := `Sec [` + cpmW + `] [` + rd("partitions") + `; ` + rd("currentPartitionId") + `; ` + rd("partitionCapacity") + `; ` + wrt("currentPartitionId") + `]`
 	cache := fieldGen(t, "fields_main", 0)
-	check(cache, "getCurrentPartition", `("getCurrentPartition", [`+fast+`; `+slow+`])`)
+	unl := `Sec [] [` + rd("valuePartitionIndex") + `; ` + rd("partitions") + `]`
+	// getCurrentPartition is private: analysed in place inside Set, no entry of its own
+	check(cache, "Set", `("Set", [`+unl+`; `+fast+`; `+slow+`; Sec [] [`+rd("valuePartitionIndex")+`]])`)
+	if strings.Contains(cache, `("getCurrentPartition"`) {
+		t.Errorf("private method getCurrentPartition has an entry of its own")
+	}
+	check(cache, "NewFifoMapCache.go1", `("NewFifoMapCache.go1", [Sec [`+swm+`] []; Sec [`+swm+`; `+cpmR+`] [`+rd("partitions")+`; `+rd("maxPartitions")+`]])`)
 	check(cache, "Sweep", `("Sweep", [Sec [`+swm+`] []; Sec [`+swm+`; `+cpmR+`] [`+rd("partitions")+`; `+rd("maxPartitions")+`]])`)
 	check(cache, "Get", `("Get", [Sec [] [`+rd("valuePartitionIndex")+`; `+rd("partitions")+`]])`)
 	check(cache, "Capacity", `("Capacity", [Sec [] [`+rd("maxPartitions")+`; `+rd("partitionCapacity")+`]])`)
@@ -147,16 +156,21 @@ func TestFieldsKeyEntries(t *testing.T) {
 	wq := fieldGen(t, "fields_main", 1)
 	wqErr := wq[strings.Index(wq, "wq_err_skeleton"):strings.Index(wq, "wq_shared_skeleton")]
 	check(wqErr, "Errors", `("Errors", [Sec [`+em+`] [`+rd(es)+`; `+wrt(es)+`]])`)
-	check(wqErr, "start.func2", `("start.func2", [Sec [`+em+`] [`+rd(es)+`]])`)
-	check(wqErr, "start", `("start", [])`)
+	check(wqErr, "NewQueue.go1.go1", `("NewQueue.go1.go1", [Sec [`+em+`] [`+rd(es)+`]])`)
+	check(wqErr, "NewQueue.go1", `("NewQueue.go1", [])`)
+	if strings.Contains(wqErr, `("start"`) || strings.Contains(wqErr, `("doWork"`) {
+		t.Errorf("private methods start/doWork have entries of their own")
+	}
 	wqm := fieldGen(t, "fields_mut", 1)
 	wqmErr := wqm[strings.Index(wqm, "wq_err_skeleton"):strings.Index(wqm, "wq_shared_skeleton")]
-	check(wqmErr, "start.func2", `("start.func2", [Sec [] [`+rd(es)+`]])`)
+	check(wqmErr, "NewQueue.go1.go1", `("NewQueue.go1.go1", [Sec [] [`+rd(es)+`]])`)
 	check(wqmErr, "Errors2", `("Errors2", [Sec [`+em+`] []; Sec [] [`+rd(es)+`; `+wrt(es)+`]])`)
 }
 
-var boxTarget = ftarget{file: "box.go", typeName: "Box", locks: []string{"mu", "aux"},
-	fields: []string{"items", "n", "ptr"}, defName: "box_skeleton"}
+var boxTarget = ftarget{file: "box.go", typeName: "Box",
+	lockSpecs:  []lockSpec{{"mu", "RWMutex", 0}, {"aux", "Mutex", 0}},
+	fieldSpecs: []fieldSpec{{canon: "items", typ: `^\[\]int$`}, {canon: "n", typ: `^int$`, nth: 0}, {canon: "ptr", typ: `^\*Other$`}},
+	defName:    "box_skeleton"}
 
 func TestFieldsFailClosed(t *testing.T) {
 	fc, err := loadFile(filepath.Join("..", "testdata", "fields_failclosed", "box.go"))
@@ -185,7 +199,20 @@ func TestFieldsFailClosed(t *testing.T) {
 	check("Writes", `("Writes", [Sec [`+muW+`] [`+rd("items")+`; `+wrt("items")+`; `+rd("n")+`; `+wrt("n")+`]; Sec [`+aux+`] [`+rd("n")+`; `+wrt("n")+`]])`)
 	check("Through", `("Through", [Sec [] [`+rd("ptr")+`]])`)
 	check("Spawns", `("Spawns", [Sec [`+muW+`] [`+wrt("n")+`]])`)
-	check("Spawns.func1", `("Spawns.func1", [Sec [`+muR+`] [`+rd("n")+`]; Sec [] [`+wrt("n")+`]])`)
+	check("Spawns.go1", `("Spawns.go1", [Sec [`+muR+`] [`+rd("n")+`]; Sec [] [`+wrt("n")+`]])`)
+	check("UsesPrivate", `("UsesPrivate", [Sec [`+muW+`] [`+rd("n")+`; `+wrt("n")+`]])`)
+	check("StartsWorker", `("StartsWorker", [])`)
+	check("StartsWorker.go1", `("StartsWorker.go1", [Sec [`+muR+`] [`+rd("n")+`]])`)
+	check("StartsWorker.go2", `("StartsWorker.go2", [Sec [`+muR+`] [`+rd("n")+`]])`)
+	check("NewBox.go1", `("NewBox.go1", [Sec [`+muR+`] [`+rd("n")+`]])`)
+	check("NewBox.go2", `("NewBox.go2", [Sec [] [`+wrt("n")+`]])`)
+	check("orphan", `("orphan", [Sec [] [`+wrt("n")+`]])`)
+	check("CloneItems", `("CloneItems", [Sec [`+muR+`] [`+rd("items")+`]])`)
+	for _, n := range []string{"locked", "bump", "worker", "rec", "rec2", "NewBox.go3"} {
+		if strings.Contains(text, `("`+n+`"`) {
+			t.Errorf("%s has an entry of its own", n)
+		}
+	}
 	check("Deferred", `("Deferred", [Sec [`+muW+`] [`+wrt("n")+`]; Sec [] [`+wrt("n")+`]])`)
 	check("FastSlow", `("FastSlow", [Sec [`+muR+`] [`+rd("n")+`]; Sec [`+muW+`] [`+wrt("n")+`; `+rd("n")+`]])`)
 	check("Calls", `("Calls", [Sec [] [`+rd("ptr")+`]; Sec [`+muW+`] []; Sec [`+muR+`] [`+rd("n")+`]; Sec [`+muW+`] [`+wrt("n")+`; `+rd("n")+`]])`)
@@ -194,22 +221,195 @@ func TestFieldsFailClosed(t *testing.T) {
 	for _, n := range []string{"EscapeRecv", "PassRecv", "AliasSlice", "ReturnSlice", "SubSlice", "AddrField", "AddrFree",
 		"MethodValue", "StoreLock", "TryLock", "RLockOnMutex", "Reentrant", "CallUnderLock", "LeakOnReturn", "NeverUnlocked",
 		"AppendElsewhere", "DeferMethod", "GoWithRecv", "LockInIf", "CaptureElsewhere", "SelectUnbalanced",
-		"RangeWithLockInside", "DeferInLoop", "Goto", "ValueReceiver", "Merge"} {
+		"RangeWithLockInside", "DeferInLoop", "Goto", "ValueReceiver", "Merge", "Recursive", "both", "PassTwice", "SortItems",
+		"NewBoxBad.go1"} {
 		check(n, `("`+n+`", [Unknown])`)
 	}
 	// a lock that is not a sync mutex, a field that does not exist: everything is Unknown
 	bad := boxTarget
-	bad.locks = []string{"done"}
+	bad.lockSpecs = []lockSpec{{"mu", "RWMutex", 0}, {"aux", "RWMutex", 1}}
 	for _, e := range analyseFieldTarget(fc, bad) {
 		if !e.unknown {
 			t.Errorf("bad lock: %s is not Unknown", e.name)
 		}
 	}
 	bad = boxTarget
-	bad.fields = []string{"nosuch"}
+	bad.fieldSpecs = []fieldSpec{{canon: "nosuch", typ: `^float64$`}}
 	for _, e := range analyseFieldTarget(fc, bad) {
 		if !e.unknown {
 			t.Errorf("bad field: %s is not Unknown", e.name)
+		}
+	}
+}
+
+// ---------------------------------------------------------------------------------------------
+// robustness against behaviour-preserving rewrites
+//
+//	refactored   main + the four rewrites of seeded/_refactorings (storage-r1: private renames in genericStack.go;
+//	             storage-r2: helpers lookupPartition / resetPartitionsLocked / sweepPeriodically extracted in
+//	             fifoMapCache.go, Resize with early return; storage-r3: Has delegates to Contains, maps.Keys/Values/Clone,
+//	             slices.AppendSeq in safeMap.go; workqueue-r1: private renames in Queue, mutex held by value) PLUS a
+//	             rename of every remaining lock and guarded field (SafeMap.mux/m, GenericStack.stack/entries, all of
+//	             FifoMapCache's, Queue.errorSubscribers).  The skeletons must be those of fields_main (= main).
+// ---------------------------------------------------------------------------------------------
+
+type canonEntry struct {
+	name string
+	secs map[string]bool // each section as "held|sorted accesses"
+}
+
+func canonical(text string) map[string][]canonEntry {
+	out := map[string][]canonEntry{}
+	def := ""
+	for _, l := range strings.Split(text, "\n") {
+		if strings.HasPrefix(l, "Definition ") {
+			def = strings.Fields(l)[1]
+		}
+		if !strings.HasPrefix(l, `  ("`) {
+			continue
+		}
+		l = strings.TrimSuffix(strings.TrimSpace(l), ";")
+		name := l[2:strings.Index(l, `", `)]
+		e := canonEntry{name: name, secs: map[string]bool{}}
+		for _, sec := range strings.Split(l, "Sec ")[1:] {
+			i := strings.Index(sec, "] [")
+			held := sec[:i+1]
+			accs := strings.Split(strings.Trim(strings.TrimRight(strings.TrimSpace(sec[i+2:]), ";)]"), "[]"), "; {|")
+			for k := range accs {
+				accs[k] = strings.Trim(accs[k], " {|}")
+			}
+			// a read of a location the same section also writes adds nothing (a write covers a read)
+			var keep []string
+			for _, x := range accs {
+				if strings.HasSuffix(x, "wr := false") {
+					w := strings.TrimSuffix(x, "false") + "true"
+					covered := false
+					for _, y := range accs {
+						covered = covered || y == w
+					}
+					if covered {
+						continue
+					}
+				}
+				keep = append(keep, x)
+			}
+			sortStrings(keep)
+			e.secs[held+"|"+strings.Join(keep, ",")] = true
+		}
+		if strings.Contains(l, "Unknown") {
+			e.secs["Unknown"] = true
+		}
+		out[def] = append(out[def], e)
+	}
+	return out
+}
+
+func sortStrings(a []string) {
+	for i := range a {
+		for j := i + 1; j < len(a); j++ {
+			if a[j] < a[i] {
+				a[i], a[j] = a[j], a[i]
+			}
+		}
+	}
+}
+
+func TestRefactoringsDoNotChangeTheSkeletons(t *testing.T) {
+	gen := func(dir string) string {
+		var all []byte
+		got, _, _, err := generate(filepath.Join("..", "testdata", dir))
+		if err != nil {
+			t.Fatal(err)
+		}
+		all = append(all, got...)
+		for _, g := range fgroups {
+			got, _, _, err := generateGroup(filepath.Join("..", "testdata", dir), g)
+			if err != nil {
+				t.Fatal(err)
+			}
+			all = append(all, got...)
+		}
+		return string(all)
+	}
+	main, ref := canonical(gen("fields_main")), canonical(gen("refactored"))
+	for _, def := range []string{"safemap_skeleton", "gstack_skeleton", "cache_skeleton", "wq_err_skeleton", "wq_shared_skeleton"} {
+		m, r := main[def], ref[def]
+		if len(m) == 0 || len(m) != len(r) {
+			t.Errorf("%s: %d entries on main, %d after the rewrites", def, len(m), len(r))
+			continue
+		}
+		for i := range m {
+			if m[i].name != r[i].name {
+				t.Errorf("%s: entry %d is %s on main, %s after the rewrites", def, i, m[i].name, r[i].name)
+				continue
+			}
+			if m[i].secs["Unknown"] || r[i].secs["Unknown"] {
+				t.Errorf("%s.%s: Unknown", def, m[i].name)
+			}
+			if m[i].name == "NewFifoMapCache.go1" {
+				continue // storage-r2 moves the read of f.config.sweepFrequency into the goroutine: a genuine (harmless) difference
+			}
+			for s := range m[i].secs {
+				if !r[i].secs[s] {
+					t.Errorf("%s.%s: section %s of main is missing after the rewrites (%v)", def, m[i].name, s, r[i].secs)
+				}
+			}
+			for s := range r[i].secs {
+				if !m[i].secs[s] {
+					t.Errorf("%s.%s: section %s appears after the rewrites (%v)", def, m[i].name, s, m[i].secs)
+				}
+			}
+		}
+	}
+}
+
+// type-based inference of the deep mode: guard by value, other names and order; ambiguity => everything Unknown
+func TestInference(t *testing.T) {
+	fc, err := loadFile(filepath.Join("..", "testdata", "infer", "shapes.go"))
+	if err != nil {
+		t.Fatal(err)
+	}
+	render1 := func(typeName string) string {
+		tg := target{file: "shapes.go", typeName: typeName, lockCanon: "L", locCanon: "X", defName: "sk"}
+		var buf bytes.Buffer
+		render(&buf, tg, analyseTarget(fc, tg))
+		return buf.String()
+	}
+	check := func(text, name, want string) {
+		t.Helper()
+		if got := entryLine(t, text, name); got != want {
+			t.Errorf("%s:\n got  %s\n want %s", name, got, want)
+		}
+	}
+	rdX, wrX := `{| loc := "X"; wr := false |}`, `{| loc := "X"; wr := true |}`
+	bv := render1("ByValue")
+	check(bv, "Get", `("Get", [Sec [("L", Rd)] [`+rdX+`]])`)
+	check(bv, "Put", `("Put", [Sec [("L", Wr)] [`+wrX+`]])`)
+	ou := render1("Outer")
+	check(ou, "Len", `("Len", [Sec [("L", Rd)] [`+rdX+`]])`)
+	check(ou, "Add", `("Add", [Sec [("L", Wr)] [`+rdX+`; `+wrX+`]])`)
+	check(ou, "Peek", `("Peek", [Sec [] [`+rdX+`]])`)
+	for _, tn := range []string{"TwoMaps", "TwoLocks", "NoGuard"} {
+		check(render1(tn), "Get", `("Get", [Unknown])`)
+	}
+	// field mode: two fields of the wanted type and no name to tell them apart beyond the position => positional;
+	// no field of the wanted type => everything Unknown
+	ft := ftarget{file: "shapes.go", typeName: "TwoMaps", lockSpecs: []lockSpec{{"mu", "RWMutex", 0}},
+		fieldSpecs: []fieldSpec{{canon: "first", typ: `^map\[string\]int$`, nth: 0}, {canon: "second", typ: `^map\[string\]int$`, nth: 1}}, defName: "sk"}
+	var buf bytes.Buffer
+	renderFields(&buf, ft, analyseFieldTarget(fc, ft))
+	check(buf.String(), "Get", `("Get", [Sec [("mu", Rd)] [{| loc := "first"; wr := false |}]])`)
+	ft.fieldSpecs = []fieldSpec{{canon: "first", typ: `^\[\]float64$`}}
+	for _, e := range analyseFieldTarget(fc, ft) {
+		if !e.unknown {
+			t.Errorf("unresolvable field: %s is not Unknown", e.name)
+		}
+	}
+	ft.fieldSpecs = nil
+	ft.lockSpecs = []lockSpec{{"mu", "Mutex", 0}}
+	for _, e := range analyseFieldTarget(fc, ft) {
+		if !e.unknown {
+			t.Errorf("unresolvable lock: %s is not Unknown", e.name)
 		}
 	}
 }
